@@ -58,8 +58,8 @@ Qed.
 Lemma InvL_init : InvL [] [] [].
 Proof. repeat split; try constructor; cbn; intros; try contradiction; try discriminate. Qed.
 
-Lemma put_inv c now m s U : InvL U (seqs s) (events s) ->
-  InvL (pushU U (Push (Some m) now)) (seqs (put c now m s)) (events (put c now m s)).
+Lemma put_inv c now now2 m s U : InvL U (seqs s) (events s) ->
+  InvL (pushU U (Push (Some m) now now2)) (seqs (put c now m s)) (events (put c now m s)).
 Proof.
   intros (Hnd & Hin & Hmsgs & HU). unfold put, pushU.
   destruct (lookup (mseq m) (events s)) as [e|] eqn:El.
